@@ -2,6 +2,7 @@
 spec JSON -> real glom spec objects, the catalogue of instrumented callables,
 value codec, and one logged run of the real glom."""
 import contextlib
+import copy
 import io
 import types
 from collections import OrderedDict
@@ -11,6 +12,9 @@ LOG = []
 # run, and every one of them that was handed to a catalogue callable
 SPEC_OBJS = []
 LEAKS = []
+# objects of the spec that are literals where they stand (an OrderedDict under Fill / in argument position:
+# only instances of exactly dict / list / tuple / set / frozenset are rebuilt): recognised by identity
+SPEC_LITERALS = []
 
 
 def _reg(fns, key, obj):
@@ -26,6 +30,8 @@ def mutables(v, seen=None):
         seen = set()
     if id(v) in seen:
         return
+    if any(v is o for o in SPEC_LITERALS):
+        return                  # a literal object of the spec: it and what it holds are the user's
     if type(v) in (list, tuple, set, frozenset) or isinstance(v, dict):
         seen.add(id(v))
         if type(v) not in (tuple, frozenset):
@@ -45,6 +51,9 @@ def enc(v):
     from glom.core import ScopeVars
     if v is None:
         return None
+    for o in SPEC_LITERALS:
+        if v is o:
+            return {'specobj': type(v).__name__}
     if v is glom.SKIP:
         return {'sent': 'SKIP'}
     if v is glom.STOP:
@@ -230,6 +239,47 @@ class Probe:
         return 'Probe(%d)' % self.pid
 
 
+class ReadProbe:
+    """custom spec (documented extension point): evaluates the wrapped spec -- a scope reader -- with the
+    running evaluator in its own scope, records what it yielded (value or exception class), hands it on"""
+    def __init__(self, pid, spec):
+        self.pid = pid
+        self.spec = spec
+
+    def glomit(self, target, scope):
+        import glom
+        try:
+            v = scope[glom.glom](target, self.spec, scope)
+        except Exception as e:
+            LOG.append({'read': self.pid, 'err': exc_name(e)})
+            raise
+        try:
+            LOG.append({'read': self.pid, 'ok': enc(v)})
+        except ValueError:
+            LOG.append({'read': self.pid, 'ok': {'gen': 0}})      # (an object the codec has no form for)
+        return v
+
+    def __repr__(self):
+        return 'ReadProbe(%d, %r)' % (self.pid, self.spec)
+
+
+class ReEnter:
+    """custom spec: a nested top-level evaluation handed the running scope (what glom.streaming.First and
+    Iter().first(key) do through Spec(key).glom(item, scope=S))"""
+    def __init__(self, spec, via_spec):
+        self.spec = spec
+        self.via_spec = via_spec
+
+    def glomit(self, target, scope):
+        import glom
+        if self.via_spec:
+            return glom.Spec(self.spec).glom(target, scope=scope)
+        return glom.glom(target, self.spec, scope=scope)
+
+    def __repr__(self):
+        return 'ReEnter(%r)' % (self.spec,)
+
+
 # ----------------------------------------------------------------- specs
 def build(j, fns):
     """spec JSON -> glom spec object"""
@@ -248,8 +298,8 @@ def build(j, fns):
     if k == 'dict':
         return _reg(fns, 'spec-containers', {B(a): B(b) for a, b in j['es']})
     if k == 'odict':
-        # (an OrderedDict is not rebuilt in Fill / argument position: outside the modelled domain)
-        return OrderedDict((B(a), B(b)) for a, b in j['es'])
+        # (an OrderedDict is not rebuilt in Fill / argument position: there it is a literal -- the very object)
+        return _reg(fns, 'spec-literals', OrderedDict((B(a), B(b)) for a, b in j['es']))
     if k == 'set':
         return _reg(fns, 'spec-containers', set(B(x) for x in j['xs']))
     if k == 'fset':
@@ -389,6 +439,20 @@ def build(j, fns):
         if j.get('map'):
             return glom.Iter().map(B(j['s']))
         return glom.Iter(B(j['s']))
+    if k == 'shared':
+        # ONE spec object used at several places (a reused fragment): built once per case
+        key = ('shared', j['id'])
+        if key not in fns:
+            fns[key] = B(fns[('shared-table',)][str(j['id'])])
+        return fns[key]
+    if k == 'optKey':
+        return glom.Optional(dec(j['v'], fns))
+    if k == 'reqKey':
+        return glom.Required(B(j['s']))
+    if k == 'reenter':
+        return ReEnter(B(j['s']), bool(j.get('via_spec')))
+    if k == 'rprobe':
+        return ReadProbe(j['id'], B(j['s']))
     if k == 'inspect':
         kw = {'echo': bool(j.get('echo')), 'recursive': bool(j.get('recursive'))}
         if j.get('bp') is not None:
@@ -422,20 +486,35 @@ def run_glom(case, built=None, keep=False):
     to re-use (a second call on the very same spec object); `keep` also returns the raw result"""
     import glom
     if built is None:
-        fns = {}
+        fns = {('shared-table',): case.get('shared') or {}}
+        # a history in one process: specs evaluated BEFORE the one observed, built from the same objects
+        for bj in case.get('before') or []:
+            try:
+                with contextlib.redirect_stdout(io.StringIO()):
+                    glom.glom(dec(case['target'], fns), build(bj, fns))
+            except Exception:
+                pass
+            del LOG[:]
         spec = build(case['spec'], fns)
         target = dec(case['target'], fns)
     else:
         spec, target, fns = built
     kw = {}
     caller_scope = None
-    if case.get('scope'):
+    if case.get('scope_layers'):
+        # a layered mapping handed as scope=: the first layer wins
+        import collections
+        caller_scope = collections.ChainMap(*[{n: dec(v, fns) for n, v in layer} for layer in case['scope_layers']])
+        kw['scope'] = caller_scope
+    elif case.get('scope'):
         caller_scope = {n: dec(v, fns) for n, v in case['scope']}
         kw['scope'] = caller_scope
-    before = dict(caller_scope) if caller_scope is not None else None
+    # a DEEP copy: a mutation of an object held by the caller's mapping shows too
+    before = copy.deepcopy(caller_scope) if caller_scope is not None else None
     del LOG[:]
     del LEAKS[:]
     SPEC_OBJS[:] = fns.get(('spec-containers',), [])
+    SPEC_LITERALS[:] = fns.get(('spec-literals',), [])
     res = None
     try:
         with contextlib.redirect_stdout(io.StringIO()):      # (Inspect(echo=True) prints; not observed)
@@ -457,6 +536,7 @@ def run_glom(case, built=None, keep=False):
             leaks.append('the result contains the spec\'s own %s object' % type(o).__name__)
     del LEAKS[:]
     del SPEC_OBJS[:]
+    del SPEC_LITERALS[:]
     out = dict(case)
     out['impl'] = impl
     out['impl_log'] = log
@@ -480,7 +560,8 @@ def run_glom_mutating(case):
     first = run_glom(case, keep=True)
     spec, target, fns = first.pop('_built')
     res = first.pop('_res')
-    given = set(map(id, fns.get(('dec-objs',), [])))
+    # (objects of the target / of Val and scope values, and literal objects of the spec itself, are the user's)
+    given = set(map(id, fns.get(('dec-objs',), []))) | set(map(id, fns.get(('spec-literals',), [])))
     n = 0
     for o in list(mutables(res)):
         if id(o) in given:
